@@ -90,7 +90,7 @@ var props = map[string]PropMeta{
 	},
 	"C05": {
 		Level: "exploration",
-		Rule: "one run = two real hubs (optionally a third bystander) with generated certificates on the simulated network and mDNS medium: registration before/after Start, start skew 0..30 s, network latency 0..900 ms (optionally asymmetric), mDNS propagation 0..6 s, the dial back-off drawn per attempt (minimum / maximum / any), then 0-4 disturbances from {DisconnectSKI by either side, unsafe close, reset of all connections, half-open link, mDNS outage} at drawn times, then 300 quiet simulated seconds x seeded interleaving of all hub, ship, ws, http and harness tasks; oracle: exactly one transport connection open at both ends, registered on both sides, completed on both sides, a fresh payload crosses in each direction; " +
+		Rule: "one run = two real hubs (optionally a third bystander) with generated certificates on the simulated network and mDNS medium: registration before/after Start, start skew 0..30 s, network latency 0..900 ms (optionally asymmetric), mDNS propagation 0..6 s, the dial back-off drawn per attempt (minimum / maximum / any), optionally a transport reset after the k-th delivered segment of the n-th connection (inside the handshake), then 0-4 disturbances from {DisconnectSKI by either side, unsafe close, reset of all connections, half-open link, mDNS outage, orderly restart of B (Shutdown + new hub, same certificate), crash of A or B (tasks frozen, sockets reset, no mDNS goodbye) or power loss of B (sockets silent) followed 0..200 s later by a new instance} at drawn times, then 300 quiet simulated seconds x seeded interleaving of all hub, ship, ws, http and harness tasks; oracle: exactly one transport connection open at both ends, registered on both sides, completed on both sides, a fresh payload crosses in each direction; " +
 			"non-trivial = converged run; distinct = distinct (latency, mDNS delay, registration order, disturbance sequence) tuples",
 		Real: hubReal, Stub: hubStub,
 		QuickS: 40, ThoroughS: 600, QuickWorkers: 8,
